@@ -149,12 +149,12 @@ def fuzz_main(case):
             ok = True
             for gm, gn, ty, invs in gvars:
                 for inv in invs:
-                    if native_eval.eval_clause(inv, {gn: getattr(module, gn)}, None, c.model, None, natives, strict=True) is not True:
+                    if native_eval.eval_clause(inv, {gn: getattr(module, gn)}, None, c.model, None, natives, strict=True, tol=c.native_tol) is not True:
                         ok = False
             if not ok:
                 continue
             env = {n: gen.value(ptypes[n]) for n in names}
-            if any(native_eval.eval_clause(r, env, None, c.model, None, natives, strict=True) is not True for r in c.requires + c.assume):
+            if any(native_eval.eval_clause(r, env, None, c.model, None, natives, strict=True, tol=c.native_tol) is not True for r in c.requires + c.assume):
                 continue
             stats["accepted"] += 1
             draws = []
@@ -195,15 +195,15 @@ def fuzz_main(case):
                 if raised not in c.raises:
                     violated.append("no-exception:%s" % raised)
                 else:
-                    cond = native_eval.eval_clause(c.raises[raised], old_env, None, c.model, None, natives)
+                    cond = native_eval.eval_clause(c.raises[raised], old_env, None, c.model, None, natives, tol=c.native_tol)
                     if cond is False:
                         violated.append("raises:%s-only-when:%s" % (raised, c.raises[raised]))
             else:
                 for exc, cond in c.raises.items():
-                    if native_eval.eval_clause(cond, old_env, None, c.model, None, natives) is True:
+                    if native_eval.eval_clause(cond, old_env, None, c.model, None, natives, tol=c.native_tol) is True:
                         violated.append("raises:%s-whenever:%s" % (exc, cond))
                 for e in c.ensures:
-                    v = native_eval.eval_clause(e, env, old_env, c.model, pre_ids, natives)
+                    v = native_eval.eval_clause(e, env, old_env, c.model, pre_ids, natives, tol=c.native_tol)
                     stats["evaluated_clauses"] += 1
                     if v is False:
                         violated.append(e)
